@@ -23,7 +23,7 @@ ASSUMPTIONS = [
 REQUIRED = ['warm_dispatch_after_add', 'warm_dispatch_after_rm', 'warm_dispatch_after_reg', 'warm_dispatch_after_unreg',
             'detached_subtree_dispatch', 'instance_channel_dispatch', 'global_handler_dispatch', 'inherited_handler_dispatch',
             'implicit_method_dispatch', 'ops_inside_handlers', 'pre_registration_event', 'fire_overlapping_unregister',
-            'same_event_object_fired_on_two_channels', 'channels_preset_on_event']
+            'same_event_object_fired_on_two_channels', 'channels_preset_on_event', 'component_with_several_handler_declaring_bases']
 REQUIRED_OBLIGATIONS = ['EXACT_SET']
 WORKER_TIMEOUT = {'quick': 300, 'thorough': 1500}
 
@@ -82,6 +82,14 @@ class World:
                 bns[hd['attr']] = self.handler(*hd['names'], channel=hd['channel'], priority=hd.get('priority', 0))(f)
             B = type('B%d' % cid, (top,), bns)
             bases = (B,)
+            # further direct bases (mixins), possibly declaring handlers under the SAME method names as the first one
+            for i, mix in enumerate(c.get('mixins') or [], 1):
+                mns = {}
+                for hd in mix['handlers']:
+                    f = self._mkfunc(cid, hd['hid'], hd['attr'])
+                    mns[hd['attr']] = self.handler(*hd['names'], channel=hd['channel'], priority=hd.get('priority', 0))(f)
+                bases += (type('B%d_%d' % (cid, i), (top,), mns),)
+                self.marks.add('component_with_several_handler_declaring_bases')
         ns = {}
         own_attrs = {}
         for hd in c['handlers']:
@@ -103,6 +111,13 @@ class World:
                     # an implicit method of the same name does not say override=True: both are handlers
                     pass
                 decl[hd['hid']] = {'names': list(hd['names']), 'channel': hd['channel'], 'kind': 'inherited'}
+            for mix in c.get('mixins') or []:
+                for hd in mix['handlers']:
+                    shadow = own_attrs.get(hd['attr'])
+                    if shadow is not None and shadow.get('override'):
+                        continue  # replaced
+                    # a handler declared by a direct base stays a handler, whatever the other bases call theirs
+                    decl[hd['hid']] = {'names': list(hd['names']), 'channel': hd['channel'], 'kind': 'inherited'}
         if c.get('channel') is not None:
             ns['channel'] = c['channel']
         K = type('K%d' % cid, bases, ns)
@@ -420,8 +435,11 @@ def H(hid, names, channel=None, attr=None, override=False, priority=0):
             'priority': priority}
 
 
-def comp(cid, channel=None, handlers=(), kind='base', base=None, methods=()):
-    return {'cid': cid, 'kind': kind, 'channel': channel, 'handlers': list(handlers), 'base': base, 'methods': list(methods)}
+def comp(cid, channel=None, handlers=(), kind='base', base=None, methods=(), mixins=()):
+    c = {'cid': cid, 'kind': kind, 'channel': channel, 'handlers': list(handlers), 'base': base, 'methods': list(methods)}
+    if mixins:
+        c['mixins'] = list(mixins)
+    return c
 
 
 def corpus():
@@ -473,6 +491,17 @@ def corpus():
         comp(2, 'a', [H(17, ['pong'])], kind='comp', methods=['pong'])], 'ops': [
         ['reg', 1, 0], ['reg', 2, 0], [F, 0, 'ping', None], [F, 0, 'pong', None], [F, 0, 'zap', None], S,
         [F, 0, 'pong', 'a'], [F, 0, 'pong', 'b'], S, ['rm', 0, 11], [F, 0, 'ping', None], S, ['rm', 1, 'm:zap'], [F, 0, 'zap', None], S]})
+    # 5b. several direct bases (mixins) declaring handlers under the same method names; the subclass redeclares one (without override),
+    #     overrides another, leaves the third alone; three mixins with an empty subclass
+    m1 = {'handlers': [H(20, ['ping'], attr='foo'), H(21, ['ping'], attr='bar'), H(22, ['pong'], attr='baz')]}
+    m2 = {'handlers': [H(23, ['ping'], attr='foo'), H(24, ['ping'], attr='bar'), H(25, ['pong'], attr='baz')]}
+    m3 = {'handlers': [H(26, ['ping'], attr='foo'), H(27, ['zap'], attr='qux')]}
+    cases.append({'name': 'mixins', 'comps': [
+        comp(0, None, [H(28, ['ping'], attr='foo'), H(29, ['ping'], attr='bar', override=True)], base=m1, mixins=[m2]),
+        comp(1, None, [], base={'handlers': [H(30, ['ping'], attr='foo')]}, mixins=[{'handlers': [H(31, ['ping'], attr='foo')]}, {'handlers': [H(32, ['ping'], attr='foo')]}]),
+        comp(2, 'a', [H(33, ['ping'], attr='foo')], kind='comp', methods=['pong'], base=m3, mixins=[{'handlers': [H(34, ['ping'], attr='foo'), H(35, ['pong'], attr='pong')]}])],
+        'ops': [['reg', 1, 0], ['reg', 2, 0], [F, 0, 'ping', None], [F, 0, 'pong', None], [F, 0, 'zap', None], S, [F, 0, 'ping', 'a'], [F, 0, 'pong', 'a'], S,
+                [F, 0, 'ping', ['inst', 1]], [F, 0, 'ping', ['inst', 0]], S, ['unreg', 1], [F, 1, 'ping', None], S, [F, 0, 'ping', None], S]})
     # 6. structural changes from inside handlers
     cases.append({'name': 'inside', 'comps': [comp(0, None, [H(1, ['ping']), H(2, ['pong'])]), comp(1, None, [H(3, ['ping']), H(4, ['pong'])]),
                                              comp(2, None, [H(5, ['ping', 'pong'])])],
@@ -522,7 +551,14 @@ def gen_case(rng):
             hs.append(newh(attr='g%d' % i))
         if kind == 'comp':
             methods = rng.sample(NAMES, rng.randint(0, 2))
-        comps.append(comp(cid, channel, hs, kind=kind, base=base, methods=methods))
+        mixins = []
+        if base is not None and rng.random() < 0.4:
+            for _ in range(rng.randint(1, 2)):
+                mixins.append({'handlers': [newh(attr=rng.choice(['f0', 'f1', 'f2', 'k0'])) for _ in range(rng.randint(1, 2))]})
+                # one method name is declared once per class
+                seen_attr = set()
+                mixins[-1]['handlers'] = [h for h in mixins[-1]['handlers'] if not (h['attr'] in seen_attr or seen_attr.add(h['attr']))]
+        comps.append(comp(cid, channel, hs, kind=kind, base=base, methods=methods, mixins=mixins))
     all_hids = {c['cid']: [h['hid'] for h in c['handlers']] + ['m:' + m for m in c['methods']] +
                 ([h['hid'] for h in c['base']['handlers']] if c['base'] else []) for c in comps}
 
